@@ -148,6 +148,23 @@ func site() string {
 	return strings.Join(chain, "<-")
 }
 
+// CallerHas reports whether a function whose name contains substr is on the calling goroutine's stack
+// (used by Decide hooks to tell the daemon's API handlers from its sync loop).
+func CallerHas(substr string) bool {
+	pcs := make([]uintptr, 64)
+	n := runtime.Callers(2, pcs)
+	frames := runtime.CallersFrames(pcs[:n])
+	for {
+		f, more := frames.Next()
+		if strings.Contains(f.Function, substr) {
+			return true
+		}
+		if !more {
+			return false
+		}
+	}
+}
+
 func itoa(i int) string {
 	if i == 0 {
 		return "0"
